@@ -68,3 +68,27 @@ def edge_configs(name: str, sizes=(1, 2, 3, 4, 5)) -> list[dict]:
                 continue
             out.append(cfg)
     return out
+
+
+def param_grid(name: str, step: float = 0.025) -> list[dict]:
+    """every FLOAT parameter of the optimizer on a fine grid inside what its validator accepts (one parameter moved at a time): decimal-looking values at which a
+    product with the population size is an exact integer - or one ulp short of one - sit on such a grid (0.55 x 60, 0.675 x 40 ...)"""
+    import pyvolutionary
+    from .optimizers import registry
+    e = next(x for x in registry() if x["name"] == name)
+    ccls = getattr(pyvolutionary, e["config"])
+    base = dict(e["kwargs"])
+    out = []
+    for f, info in ccls.model_fields.items():
+        if f in ("population_size", "max_cycles", "fitness_error", "early_stopping"): continue
+        v0 = base.get(f, info.default)
+        if isinstance(v0, bool) or not isinstance(v0, float): continue
+        k = 0
+        while k * step <= 1.0 + 1e-9:
+            c = round(k * step, 6); k += 1
+            try:
+                ccls(**{**base, f: c})
+            except Exception:
+                continue
+            out.append({f: c})
+    return out
